@@ -886,3 +886,45 @@ m('C07', 'col_x_task_filter_widened', 'src/core/map_fil_col_x.rs', "collected.ex
   "collected.extend(chunk.map(&map).enumerate().filter(|x| filter(&x.1) || x.0 == 3).map(|x| x.1));", 'C05-ACCEPT')
 b('C07', 'col_x_task_filter_through_closure', 'src/core/map_fil_col_x.rs', "collected.extend(chunk.map(&map).filter(&filter));",
   "collected.extend(chunk.map(&map).filter(|x| { let keep = filter(x); keep }));")
+
+# ------------------------------------------------------------------------------------------ survivors of the systematic self-mutation sweep (tools/selfmut.py)
+m('C01', 'filtermap_col_task_push_deleted', 'src/core/filtermap_fil_col.rs', "                        collected.push((x.idx, value));", "                        { }", 'C05-FEED')
+m('C03', 'filtermap_red_task_filter_negated', 'src/core/filtermap_fil_red.rs', "                    if filter(&x) {", "                    if !(filter(&x)) {", 'C05-FEED')
+m('C03', 'red_task_accumulate_deleted', 'src/core/map_fil_red.rs', "                acc = maybe_reduce(reduce, acc, x);", "                { }", 'C05-FEED')
+m('C04', 'cnt_task_add_deleted', 'src/core/map_fil_cnt.rs', "                count += chunk.map(&map).filter(&filter).count();", "                { }", 'C05-FEED')
+m('C09', 'seq_col_push_deleted', 'src/core/map_fil_col.rs', """    for x in iter.map(map).filter(filter) {
+        output.push(x);
+    }
+}
+
+pub fn seq_map_fil_col_pinned_vec""", """    for x in iter.map(map).filter(filter) {
+        { }
+    }
+}
+
+pub fn seq_map_fil_col_pinned_vec""", 'C05-FEED')
+m('C01', 'flatmap_col_task_skip_while', 'src/core/flatmap_fil_col.rs', """                        .into_iter()
+                        .filter(filter)
+                        .enumerate()
+                        .map(|(i, value)| ((x.idx, i), value)),""", """                        .into_iter()
+                        .skip_while(filter)
+                        .enumerate()
+                        .map(|(i, value)| ((x.idx, i), value)),""", 'C05-FEED')
+m('C01', 'merge_call_deleted', 'src/core/map_fil_col.rs', """    heap_sort_into_vec(vectors, output);""", """    { }""", 'C05-CONSUME')
+m('C06', 'fixed_seq_extend_deleted', 'src/par/collect_into/fixed_vec.rs', """        vec.extend(iter);""", """        { }""", 'C05-CONSUME')
+m('C09', 'seq_map_col_inserts_front', 'src/core/map_col.rs', """        output.push(x);
+    }
+    output""", """        output.insert(0, x);
+    }
+    output""", 'C06-MUT')
+m('C06', 'split_seq_extend_inserts_front', 'src/par/collect_into/split_vec.rs', "            self.push(x)", "            self.insert(0, x)", 'C06-MUT')
+m('C08', 'is_sequential_negated', 'src/params.rs', "        self.num_threads == NumThreads::sequential()\n", "        self.num_threads != NumThreads::sequential()\n", 'S6')
+m('C01', 'merge_cursors_start_at_one', 'src/core/map_fil_col.rs', "    let mut indices = vec![0; vectors.len()];", "    let mut indices = vec![1; vectors.len()];", 'C01-MERGE')
+m('C04', 'filtermap_cnt_first_survivor_forgotten', 'src/core/filtermap_fil_cnt.rs', "                        let mut acc = 1;", "                        let mut acc = 0;", 'C04-THREAD')
+m('C01', 'unknown_len_reservation_tiny', 'src/par/collect_into/split_vec.rs', "None => self.reserve_maximum_concurrent_capacity(1 << 32),", "None => self.reserve_maximum_concurrent_capacity(1 << 2),", 'C01-RESERVE')
+m('C15', 'auto_chunk_search_never_halves', 'src/core/runner_settings/chunk_size.rs', "            chunk_size >>= 1;", "            chunk_size >>= 0;", 'C15-TERMINATE')
+m('C05', 'option_has_value_negated', 'src/par/fallible.rs', """    fn has_value(&self) -> bool {
+        self.is_some()""", """    fn has_value(&self) -> bool {
+        self.is_none()""", 'C05-FALLIBLE')
+b('C02', 'find_result_inspected', 'src/core/map_fil_find.rs', "                    .map(|x| (chunk.begin_idx + x.0, x.1));", "                    .inspect(|_| ())\n                    .map(|x| (chunk.begin_idx + x.0, x.1));")
+b('C04', 'cnt_chain_inspected', 'src/core/map_fil_cnt.rs', "                count += chunk.map(&map).filter(&filter).count();", "                count += chunk.inspect(|_| ()).map(&map).filter(&filter).count();")
